@@ -1,4 +1,16 @@
 import BqVerif.Proofs.GraphBasic
+/-!
+Correctness of the in-place Floyd–Warshall `floydWarshall` (transcription of
+`CouplingGraph.all_pairs_shortest_path`) and of the weight matrix `G.weightMat` (`_mat` in `__init__`).
+
+The diagonal of the weight matrix starts at `∞`, not `0`: `D[i][i]` is the weight of the lightest
+NON-EMPTY closed walk through `i`.  The specification is therefore "minimum weight over non-empty walks".
+
+Proof idea (no "row/column k is unchanged during iteration k" argument): every relaxation only decreases
+entries (monotonicity), keeps the matrix square and keeps every finite entry the weight of a real walk.
+After iteration `k` every entry is below its `k`-detour w.r.t. the matrix at the START of the iteration,
+which is enough to push the invariant "below every walk with intermediate vertices `< k`" to `k + 1`.
+-/
 namespace BqVerif.Graph
 
 /-- a ≤ b on weights, none = ∞ -/
@@ -128,7 +140,7 @@ theorem walkWeight_some_lt {m : Mat} {n : Nat} (hm : m.Square n) {i j : Nat} {mi
     · exact h1.2
     · exact h2.2.2 u hu
 
-theorem split_first (k : Nat) : ∀ l : List Nat, k ∈ l → ∃ A B, l = A ++ k :: B ∧ k ∉ A
+theorem fw_split_first (k : Nat) : ∀ l : List Nat, k ∈ l → ∃ A B, l = A ++ k :: B ∧ k ∉ A
   | [], h => by simp at h
   | x :: xs, h => by
     by_cases hx : x = k
@@ -137,16 +149,16 @@ theorem split_first (k : Nat) : ∀ l : List Nat, k ∈ l → ∃ A B, l = A ++ 
         rcases List.mem_cons.mp h with h | h
         · exact absurd h.symm hx
         · exact h
-      obtain ⟨A, B, hAB, hA⟩ := split_first k xs hk
+      obtain ⟨A, B, hAB, hA⟩ := fw_split_first k xs hk
       refine ⟨x :: A, B, by simp [hAB], ?_⟩
       simp only [List.mem_cons, not_or]
       exact ⟨fun h => hx h.symm, hA⟩
 
-theorem split_last (k : Nat) : ∀ l : List Nat, k ∈ l → ∃ A B, l = A ++ k :: B ∧ k ∉ B
+theorem fw_split_last (k : Nat) : ∀ l : List Nat, k ∈ l → ∃ A B, l = A ++ k :: B ∧ k ∉ B
   | [], h => by simp at h
   | x :: xs, h => by
     by_cases hk : k ∈ xs
-    · obtain ⟨A, B, hAB, hB⟩ := split_last k xs hk
+    · obtain ⟨A, B, hAB, hB⟩ := fw_split_last k xs hk
       exact ⟨x :: A, B, by simp [hAB], hB⟩
     · have hx : k = x := by
         rcases List.mem_cons.mp h with h | h
@@ -156,22 +168,22 @@ theorem split_last (k : Nat) : ∀ l : List Nat, k ∈ l → ∃ A B, l = A ++ k
 
 /-! ### relaxations -/
 /-- one relaxation step `D[i][j] = min(D[i][j], D[i][k] + D[k][j])` -/
-def relax (D : Mat) (i j k : Nat) : Mat :=
+def fwRelax (D : Mat) (i j k : Nat) : Mat :=
   D.set i j (wmin (D.get i j) (wadd (D.get i k) (D.get k j)))
 
 /-- a sequence of relaxations through `k` -/
-def relaxAll (k : Nat) (ps : List (Nat × Nat)) (D : Mat) : Mat :=
-  ps.foldl (fun D p => relax D p.1 p.2 k) D
+def fwRelaxAll (k : Nat) (ps : List (Nat × Nat)) (D : Mat) : Mat :=
+  ps.foldl (fun D p => fwRelax D p.1 p.2 k) D
 
-def pairs (n : Nat) : List (Nat × Nat) :=
+def fwPairs (n : Nat) : List (Nat × Nat) :=
   (List.range n).flatMap (fun i => (List.range n).map (fun j => (i, j)))
 
-theorem mem_pairs (n a b : Nat) : (a, b) ∈ pairs n ↔ a < n ∧ b < n := by
-  simp [pairs]
+theorem mem_fwPairs (n a b : Nat) : (a, b) ∈ fwPairs n ↔ a < n ∧ b < n := by
+  simp [fwPairs]
 
 theorem floydWarshall_eq (n : Nat) (m : Mat) :
-    floydWarshall n m = (List.range n).foldl (fun D k => relaxAll k (pairs n) D) m := by
-  unfold floydWarshall relaxAll pairs
+    floydWarshall n m = (List.range n).foldl (fun D k => fwRelaxAll k (fwPairs n) D) m := by
+  unfold floydWarshall fwRelaxAll fwPairs
   congr 1
   funext D k
   rw [List.foldl_flatMap]
@@ -180,7 +192,7 @@ theorem floydWarshall_eq (n : Nat) (m : Mat) :
   rw [List.foldl_map]
   rfl
 
-theorem foldl_inv {α β} (P : β → Prop) (f : β → α → β) (l : List α) (b : β) (hb : P b)
+theorem fw_foldl_inv {α β} (P : β → Prop) (f : β → α → β) (l : List α) (b : β) (hb : P b)
     (hf : ∀ b, ∀ a ∈ l, P b → P (f b a)) : P (l.foldl f b) := by
   induction l generalizing b with
   | nil => exact hb
@@ -193,12 +205,12 @@ theorem Mat.le_refl (D : Mat) : D.le D := fun _ _ => wle_refl _
 theorem Mat.le_trans {A B C : Mat} (h1 : A.le B) (h2 : B.le C) : A.le C :=
   fun a b => wle_trans (h1 a b) (h2 a b)
 
-theorem relax_square {D : Mat} {n : Nat} (h : D.Square n) (i j k : Nat) : (relax D i j k).Square n :=
+theorem fwRelax_square {D : Mat} {n : Nat} (h : D.Square n) (i j k : Nat) : (fwRelax D i j k).Square n :=
   Mat.set_square h _ _ _
 
-theorem relax_le {D : Mat} {n : Nat} (h : D.Square n) (i j k : Nat) : (relax D i j k).le D := by
+theorem fwRelax_le {D : Mat} {n : Nat} (h : D.Square n) (i j k : Nat) : (fwRelax D i j k).le D := by
   intro a b
-  unfold relax
+  unfold fwRelax
   rw [Mat.get_set h]
   split
   · next hc =>
@@ -206,21 +218,21 @@ theorem relax_le {D : Mat} {n : Nat} (h : D.Square n) (i j k : Nat) : (relax D i
     exact wmin_le_left _ _
   · exact wle_refl _
 
-theorem relax_get_self {D : Mat} {n : Nat} (h : D.Square n) {i j : Nat} (hi : i < n) (hj : j < n) (k : Nat) :
-    (relax D i j k).get i j = wmin (D.get i j) (wadd (D.get i k) (D.get k j)) := by
-  unfold relax
+theorem fwRelax_get_self {D : Mat} {n : Nat} (h : D.Square n) {i j : Nat} (hi : i < n) (hj : j < n) (k : Nat) :
+    (fwRelax D i j k).get i j = wmin (D.get i j) (wadd (D.get i k) (D.get k j)) := by
+  unfold fwRelax
   rw [Mat.get_set h]
   simp [hi, hj]
 
 /-- soundness invariant: finite entries are weights of walks of `m` -/
-def Sound (m D : Mat) : Prop := ∀ a b w, D.get a b = some w → ∃ mids, walkWeight m a mids b = some w
+def FWSound (m D : Mat) : Prop := ∀ a b w, D.get a b = some w → ∃ mids, walkWeight m a mids b = some w
 
-theorem sound_init (m : Mat) : Sound m m := fun a b w h => ⟨[], by simpa [walkWeight] using h⟩
+theorem fwSound_init (m : Mat) : FWSound m m := fun a b w h => ⟨[], by simpa [walkWeight] using h⟩
 
-theorem relax_sound {m D : Mat} {n : Nat} (h : D.Square n) (hs : Sound m D) (i j k : Nat) :
-    Sound m (relax D i j k) := by
+theorem fwRelax_sound {m D : Mat} {n : Nat} (h : D.Square n) (hs : FWSound m D) (i j k : Nat) :
+    FWSound m (fwRelax D i j k) := by
   intro a b w hw
-  unfold relax at hw
+  unfold fwRelax at hw
   rw [Mat.get_set h] at hw
   split at hw
   · next hc =>
@@ -234,82 +246,83 @@ theorem relax_sound {m D : Mat} {n : Nat} (h : D.Square n) (hs : Sound m D) (i j
       exact ⟨xs ++ k :: ys, by rw [walkWeight_append, hxs, hys]; rfl⟩
   · exact hs a b w hw
 
-theorem relaxAll_inv {m D : Mat} {n : Nat} (k : Nat) (ps : List (Nat × Nat)) (h : D.Square n) (hs : Sound m D) :
-    (relaxAll k ps D).Square n ∧ Sound m (relaxAll k ps D) ∧ (relaxAll k ps D).le D := by
-  unfold relaxAll
-  refine foldl_inv (fun D' => D'.Square n ∧ Sound m D' ∧ D'.le D) _ ps D ⟨h, hs, Mat.le_refl D⟩ ?_
+theorem fwRelaxAll_inv {m D : Mat} {n : Nat} (k : Nat) (ps : List (Nat × Nat)) (h : D.Square n) (hs : FWSound m D) :
+    (fwRelaxAll k ps D).Square n ∧ FWSound m (fwRelaxAll k ps D) ∧ (fwRelaxAll k ps D).le D := by
+  unfold fwRelaxAll
+  refine fw_foldl_inv (fun D' => D'.Square n ∧ FWSound m D' ∧ D'.le D) _ ps D ⟨h, hs, Mat.le_refl D⟩ ?_
   intro D' p _ ⟨h1, h2, h3⟩
-  exact ⟨relax_square h1 _ _ _, relax_sound h1 h2 _ _ _, Mat.le_trans (relax_le h1 _ _ _) h3⟩
+  exact ⟨fwRelax_square h1 _ _ _, fwRelax_sound h1 h2 _ _ _, Mat.le_trans (fwRelax_le h1 _ _ _) h3⟩
 
-/-- (R): after relaxing all pairs through `k`, every processed entry is below the `k`-detour of the
+/-- (R): after relaxing all pairs `ps` through `k`, every processed entry is below the `k`-detour of the
 start matrix. -/
-theorem relaxAll_bound {m D : Mat} {n : Nat} (k : Nat) (ps : List (Nat × Nat)) (h : D.Square n) (hs : Sound m D)
+theorem fwRelaxAll_bound {m D : Mat} {n : Nat} (k : Nat) (ps : List (Nat × Nat)) (h : D.Square n) (hs : FWSound m D)
     {a b : Nat} (ha : a < n) (hb : b < n) (hmem : (a, b) ∈ ps) :
-    wle ((relaxAll k ps D).get a b) (wadd (D.get a k) (D.get k b)) := by
+    wle ((fwRelaxAll k ps D).get a b) (wadd (D.get a k) (D.get k b)) := by
   obtain ⟨ps1, ps2, rfl⟩ := List.append_of_mem hmem
-  have e : relaxAll k (ps1 ++ (a, b) :: ps2) D = relaxAll k ps2 (relax (relaxAll k ps1 D) a b k) := by
-    simp [relaxAll, List.foldl_append]
+  have e : fwRelaxAll k (ps1 ++ (a, b) :: ps2) D = fwRelaxAll k ps2 (fwRelax (fwRelaxAll k ps1 D) a b k) := by
+    simp [fwRelaxAll, List.foldl_append]
   rw [e]
-  obtain ⟨c1, c2, c3⟩ := relaxAll_inv (m := m) k ps1 h hs
-  have d1 := relax_square c1 a b k
-  have d2 := relax_sound c1 c2 a b k
-  obtain ⟨_, _, e3⟩ := relaxAll_inv (m := m) k ps2 d1 d2
+  obtain ⟨c1, c2, c3⟩ := fwRelaxAll_inv (m := m) k ps1 h hs
+  have d1 := fwRelax_square c1 a b k
+  have d2 := fwRelax_sound c1 c2 a b k
+  obtain ⟨_, _, e3⟩ := fwRelaxAll_inv (m := m) k ps2 d1 d2
   refine wle_trans (e3 a b) ?_
-  rw [relax_get_self c1 ha hb]
+  rw [fwRelax_get_self c1 ha hb]
   exact wle_trans (wmin_le_right _ _) (wadd_mono (c3 a k) (c3 k b))
 
 
 /-! ### optimality -/
 /-- `D` is below every walk of `m` whose intermediate vertices are all `< k` -/
-def Opt (m : Mat) (n k : Nat) (D : Mat) : Prop :=
+def FWOpt (m : Mat) (n k : Nat) (D : Mat) : Prop :=
   ∀ a b, a < n → b < n → ∀ mids : List Nat, (∀ v ∈ mids, v < k) → wle (D.get a b) (walkWeight m a mids b)
 
-theorem opt_init (m : Mat) (n : Nat) : Opt m n 0 m := by
+theorem fwOpt_init (m : Mat) (n : Nat) : FWOpt m n 0 m := by
   intro a b _ _ mids h
   cases mids with
   | nil => exact wle_refl _
   | cons v vs => exact absurd (h v (by simp)) (by omega)
 
-theorem lt_of_lt_succ_not_mem {k : Nat} {l : List Nat} (h : ∀ v ∈ l, v < k + 1) (hk : k ∉ l) :
+theorem fw_lt_of_lt_succ_not_mem {k : Nat} {l : List Nat} (h : ∀ v ∈ l, v < k + 1) (hk : k ∉ l) :
     ∀ v ∈ l, v < k := by
   intro v hv
   have := h v hv
   have : v ≠ k := fun e => hk (e ▸ hv)
   omega
 
-/-- (L) -/
-theorem opt_from_k {m D : Mat} {n k : Nat} (ho : Opt m n k D) (hk : k < n) {b : Nat} (hb : b < n)
+/-- (L): the entry `(k, b)` is below every walk from `k` whose intermediate vertices are `≤ k`
+(cut the walk at the last visit of `k`). -/
+theorem fwOpt_from_k {m D : Mat} {n k : Nat} (ho : FWOpt m n k D) (hk : k < n) {b : Nat} (hb : b < n)
     (B : List Nat) (hB : ∀ v ∈ B, v < k + 1) : wle (D.get k b) (walkWeight m k B b) := by
   by_cases hmem : k ∈ B
-  · obtain ⟨B1, B2, rfl, h2⟩ := split_last k B hmem
+  · obtain ⟨B1, B2, rfl, h2⟩ := fw_split_last k B hmem
     rw [walkWeight_append]
     refine wle_trans ?_ (wle_wadd_right _ _)
-    exact ho k b hk hb B2 (lt_of_lt_succ_not_mem (fun v hv => hB v (by simp [hv])) h2)
-  · exact ho k b hk hb B (lt_of_lt_succ_not_mem hB hmem)
+    exact ho k b hk hb B2 (fw_lt_of_lt_succ_not_mem (fun v hv => hB v (by simp [hv])) h2)
+  · exact ho k b hk hb B (fw_lt_of_lt_succ_not_mem hB hmem)
 
-theorem opt_step {m D : Mat} {n k : Nat} (hk : k < n) (h : D.Square n) (hs : Sound m D) (ho : Opt m n k D) :
-    Opt m n (k + 1) (relaxAll k (pairs n) D) := by
+theorem fwOpt_step {m D : Mat} {n k : Nat} (hk : k < n) (h : D.Square n) (hs : FWSound m D) (ho : FWOpt m n k D) :
+    FWOpt m n (k + 1) (fwRelaxAll k (fwPairs n) D) := by
   intro a b ha hb mids hmids
-  obtain ⟨_, _, hle⟩ := relaxAll_inv (m := m) k (pairs n) h hs
+  obtain ⟨_, _, hle⟩ := fwRelaxAll_inv (m := m) k (fwPairs n) h hs
   by_cases hmem : k ∈ mids
-  · obtain ⟨A, B, rfl, hA⟩ := split_first k mids hmem
+  · obtain ⟨A, B, rfl, hA⟩ := fw_split_first k mids hmem
     rw [walkWeight_append]
-    refine wle_trans (relaxAll_bound k (pairs n) h hs ha hb ((mem_pairs n a b).mpr ⟨ha, hb⟩)) ?_
+    refine wle_trans (fwRelaxAll_bound k (fwPairs n) h hs ha hb ((mem_fwPairs n a b).mpr ⟨ha, hb⟩)) ?_
     refine wadd_mono ?_ ?_
-    · exact ho a k ha hk A (lt_of_lt_succ_not_mem (fun v hv => hmids v (by simp [hv])) hA)
-    · exact opt_from_k ho hk hb B (fun v hv => hmids v (by simp [hv]))
-  · exact wle_trans (hle a b) (ho a b ha hb mids (lt_of_lt_succ_not_mem hmids hmem))
+    · exact ho a k ha hk A (fw_lt_of_lt_succ_not_mem (fun v hv => hmids v (by simp [hv])) hA)
+    · exact fwOpt_from_k ho hk hb B (fun v hv => hmids v (by simp [hv]))
+  · exact wle_trans (hle a b) (ho a b ha hb mids (fw_lt_of_lt_succ_not_mem hmids hmem))
 
 theorem fw_inv (n : Nat) (m : Mat) (hm : m.Square n) (t : Nat) (ht : t ≤ n) :
-    let D := (List.range t).foldl (fun D k => relaxAll k (pairs n) D) m
-    D.Square n ∧ Sound m D ∧ Opt m n t D := by
+    let D := (List.range t).foldl (fun D k => fwRelaxAll k (fwPairs n) D) m
+    D.Square n ∧ FWSound m D ∧ FWOpt m n t D := by
   induction t with
-  | zero => exact ⟨hm, sound_init m, opt_init m n⟩
+  | zero => exact ⟨hm, fwSound_init m, fwOpt_init m n⟩
   | succ t ih =>
     obtain ⟨h1, h2, h3⟩ := ih (by omega)
     simp only [List.range_succ, List.foldl_append, List.foldl_cons, List.foldl_nil]
-    obtain ⟨c1, c2, _⟩ := relaxAll_inv (m := m) t (pairs n) h1 h2
-    exact ⟨c1, c2, opt_step (by omega) h1 h2 h3⟩
+    obtain ⟨c1, c2, _⟩ := fwRelaxAll_inv (m := m) t (fwPairs n) h1 h2
+    exact ⟨c1, c2, fwOpt_step (by omega) h1 h2 h3⟩
 
 /-! ### final theorems -/
 theorem floydWarshall_square (n : Nat) (m : Mat) (hm : m.Square n) : (floydWarshall n m).Square n := by
@@ -363,43 +376,43 @@ theorem floydWarshall_spec (n : Nat) (m : Mat) (hm : m.Square n) (i j : Nat) (hi
 
 /-! ### the weight matrix -/
 /-- `_mat[q1][q2] = w; _mat[q2][q1] = w` -/
-def put (m : Mat) (e : Nat × Nat) (w : Nat) : Mat := (m.set e.1 e.2 (some w)).set e.2 e.1 (some w)
+def matPut (m : Mat) (e : Nat × Nat) (w : Nat) : Mat := (m.set e.1 e.2 (some w)).set e.2 e.1 (some w)
 
 theorem weightMat_eq (g : G) (dw rw : Nat) (remote : List (Nat × Nat)) (over : List ((Nat × Nat) × Nat)) :
     g.weightMat dw rw remote over =
-      over.foldl (fun m ew => put m ew.1 ew.2)
-        (remote.foldl (fun m e => put m (norm e) rw)
-          (g.edges.foldl (fun m e => put m e dw) (List.replicate g.n (List.replicate g.n none)))) := rfl
+      over.foldl (fun m ew => matPut m ew.1 ew.2)
+        (remote.foldl (fun m e => matPut m (norm e) rw)
+          (g.edges.foldl (fun m e => matPut m e dw) (List.replicate g.n (List.replicate g.n none)))) := rfl
 
-theorem replicate_square (n : Nat) : Mat.Square (List.replicate n (List.replicate n none)) n := by
+theorem fw_replicate_square (n : Nat) : Mat.Square (List.replicate n (List.replicate n none)) n := by
   refine ⟨by simp, ?_⟩
   intro row hrow
   rw [List.mem_replicate] at hrow
   simp [hrow.2]
 
-theorem replicate_get (n i j : Nat) : Mat.get (List.replicate n (List.replicate n none)) i j = none := by
+theorem fw_replicate_get (n i j : Nat) : Mat.get (List.replicate n (List.replicate n none)) i j = none := by
   unfold Mat.get
   simp only [List.getD_eq_getElem?_getD, List.getElem?_replicate]
   by_cases hi : i < n <;> by_cases hj : j < n <;> simp [hi, hj]
 
-theorem put_square {m : Mat} {n : Nat} (hm : m.Square n) (e : Nat × Nat) (w : Nat) : (put m e w).Square n :=
+theorem matPut_square {m : Mat} {n : Nat} (hm : m.Square n) (e : Nat × Nat) (w : Nat) : (matPut m e w).Square n :=
   Mat.set_square (Mat.set_square hm _ _ _) _ _ _
 
 /-- does the (ordered) pair `e` denote the unordered pair `{i, j}` -/
-def matches2 (i j : Nat) (e : Nat × Nat) : Bool := e == (i, j) || e == (j, i)
+def pairMatches (i j : Nat) (e : Nat × Nat) : Bool := e == (i, j) || e == (j, i)
 
-theorem matches2_norm (i j : Nat) (e : Nat × Nat) : matches2 i j (norm e) = matches2 i j e := by
+theorem pairMatches_norm (i j : Nat) (e : Nat × Nat) : pairMatches i j (norm e) = pairMatches i j e := by
   obtain ⟨a, b⟩ := e
-  unfold matches2 norm
+  unfold pairMatches norm
   by_cases h : a ≤ b <;> simp [h]
   rw [Bool.eq_iff_iff]; simp; omega
 
-theorem put_get {m : Mat} {n : Nat} (hm : m.Square n) (e : Nat × Nat) (he : e.1 < n ∧ e.2 < n) (w : Nat)
-    (i j : Nat) : (put m e w).get i j = if matches2 i j e then some w else m.get i j := by
+theorem matPut_get {m : Mat} {n : Nat} (hm : m.Square n) (e : Nat × Nat) (he : e.1 < n ∧ e.2 < n) (w : Nat)
+    (i j : Nat) : (matPut m e w).get i j = if pairMatches i j e then some w else m.get i j := by
   obtain ⟨a, b⟩ := e
-  unfold put
+  unfold matPut
   rw [Mat.get_set (Mat.set_square hm _ _ _), Mat.get_set hm]
-  simp only [matches2, Bool.or_eq_true, beq_iff_eq, Prod.mk.injEq]
+  simp only [pairMatches, Bool.or_eq_true, beq_iff_eq, Prod.mk.injEq]
   simp only at he
   by_cases h1 : i = b ∧ j = a
   · simp [h1, he]
@@ -411,52 +424,52 @@ theorem put_get {m : Mat} {n : Nat} (hm : m.Square n) (e : Nat × Nat) (he : e.1
       have h4 : ¬ (i = a ∧ j = b ∧ a < n ∧ b < n) := fun h => h2 ⟨h.1, h.2.1⟩
       simp [h1', h2', h3, h4]
 
-theorem foldl_put_square {α} (key : α → Nat × Nat) (wt : α → Nat) (l : List α) {M : Mat} {n : Nat}
-    (hM : M.Square n) : (l.foldl (fun m x => put m (key x) (wt x)) M).Square n :=
-  foldl_inv (fun D => D.Square n) _ l M hM (fun _ _ _ h => put_square h _ _)
+theorem foldl_matPut_square {α} (key : α → Nat × Nat) (wt : α → Nat) (l : List α) {M : Mat} {n : Nat}
+    (hM : M.Square n) : (l.foldl (fun m x => matPut m (key x) (wt x)) M).Square n :=
+  fw_foldl_inv (fun D => D.Square n) _ l M hM (fun _ _ _ h => matPut_square h _ _)
 
-/-- a sequence of `put`s: the last matching assignment wins -/
-theorem foldl_put_get {α} (key : α → Nat × Nat) (wt : α → Nat) (l : List α) {M : Mat} {n : Nat}
+/-- a sequence of `matPut`s: the last matching assignment wins -/
+theorem foldl_matPut_get {α} (key : α → Nat × Nat) (wt : α → Nat) (l : List α) {M : Mat} {n : Nat}
     (hM : M.Square n) (hl : ∀ x ∈ l, (key x).1 < n ∧ (key x).2 < n) (i j : Nat) :
-    (l.foldl (fun m x => put m (key x) (wt x)) M).get i j =
-      match l.reverse.find? (fun x => matches2 i j (key x)) with
+    (l.foldl (fun m x => matPut m (key x) (wt x)) M).get i j =
+      match l.reverse.find? (fun x => pairMatches i j (key x)) with
       | some x => some (wt x)
       | none => M.get i j := by
   induction l generalizing M with
   | nil => simp
   | cons x xs ih =>
-    rw [List.foldl_cons, ih (put_square hM _ _) (fun y hy => hl y (by simp [hy]))]
+    rw [List.foldl_cons, ih (matPut_square hM _ _) (fun y hy => hl y (by simp [hy]))]
     rw [List.reverse_cons, List.find?_append]
-    cases hf : xs.reverse.find? (fun x => matches2 i j (key x)) with
+    cases hf : xs.reverse.find? (fun x => pairMatches i j (key x)) with
     | some y => simp
     | none =>
-      rw [put_get hM _ (hl x (by simp))]
-      by_cases hx : matches2 i j (key x) <;> simp [hx]
+      rw [matPut_get hM _ (hl x (by simp))]
+      by_cases hx : pairMatches i j (key x) <;> simp [hx]
 
 theorem weightMat_square (g : G) (dw rw : Nat) (remote : List (Nat × Nat)) (over : List ((Nat × Nat) × Nat)) :
     (g.weightMat dw rw remote over).Square g.n := by
   rw [weightMat_eq]
-  exact foldl_put_square (fun ew : (Nat × Nat) × Nat => ew.1) (fun ew => ew.2) over
-    (foldl_put_square (fun e : Nat × Nat => norm e) (fun _ => rw) remote
-      (foldl_put_square (fun e : Nat × Nat => e) (fun _ => dw) g.edges (replicate_square g.n)))
+  exact foldl_matPut_square (fun ew : (Nat × Nat) × Nat => ew.1) (fun ew => ew.2) over
+    (foldl_matPut_square (fun e : Nat × Nat => norm e) (fun _ => rw) remote
+      (foldl_matPut_square (fun e : Nat × Nat => e) (fun _ => dw) g.edges (fw_replicate_square g.n)))
 
 theorem G.hasEdge_iff_any (g : G) (hwf : g.WF) (i j : Nat) :
-    g.hasEdge i j = g.edges.any (matches2 i j) := by
+    g.hasEdge i j = g.edges.any (pairMatches i j) := by
   rw [Bool.eq_iff_iff, G.hasEdge_iff, List.any_eq_true]
   constructor
   · intro h
     refine ⟨_, h, ?_⟩
-    rw [matches2_norm]; simp [matches2]
+    rw [pairMatches_norm]; simp [pairMatches]
   · rintro ⟨⟨a, b⟩, he, hm⟩
     have := hwf _ he
-    simp only [matches2, Bool.or_eq_true, beq_iff_eq, Prod.mk.injEq] at hm
+    simp only [pairMatches, Bool.or_eq_true, beq_iff_eq, Prod.mk.injEq] at hm
     simp only at this
     rcases hm with ⟨rfl, rfl⟩ | ⟨rfl, rfl⟩
     · rw [norm_of_le (by omega)]; exact he
     · rw [norm_of_lt (by omega)]; exact he
 
 
-theorem find?_reverse_const {α} (p : α → Bool) (l : List α) (c : Nat) (d : W) :
+theorem fw_find?_reverse_const {α} (p : α → Bool) (l : List α) (c : Nat) (d : W) :
     (match l.reverse.find? p with
       | some _ => some c
       | none => d) = if l.any p then some c else d := by
@@ -481,31 +494,185 @@ theorem weightMat_get (g : G) (hwf : g.WF) (dw rw : Nat) (remote : List (Nat × 
     (hrem : ∀ e ∈ remote, g.hasEdge e.1 e.2 = true)
     (hover : ∀ ew ∈ over, g.hasEdge ew.1.1 ew.1.2 = true) (i j : Nat) :
     (g.weightMat dw rw remote over).get i j =
-      match over.reverse.find? (fun ew => matches2 i j ew.1) with
+      match over.reverse.find? (fun ew => pairMatches i j ew.1) with
       | some ew => some ew.2
       | none =>
-        if remote.any (matches2 i j) then some rw
+        if remote.any (pairMatches i j) then some rw
         else if g.hasEdge i j then some dw else none := by
   rw [weightMat_eq]
-  have sq1 := foldl_put_square (fun e : Nat × Nat => e) (fun _ => dw) g.edges (replicate_square g.n)
-  have sq2 := foldl_put_square (fun e : Nat × Nat => norm e) (fun _ => rw) remote sq1
-  rw [foldl_put_get (fun ew : (Nat × Nat) × Nat => ew.1) (fun ew => ew.2) over sq2
+  have sq1 := foldl_matPut_square (fun e : Nat × Nat => e) (fun _ => dw) g.edges (fw_replicate_square g.n)
+  have sq2 := foldl_matPut_square (fun e : Nat × Nat => norm e) (fun _ => rw) remote sq1
+  rw [foldl_matPut_get (fun ew : (Nat × Nat) × Nat => ew.1) (fun ew => ew.2) over sq2
     (fun ew hew => ⟨(g.hasEdge_lt hwf (hover ew hew)).2.1, (g.hasEdge_lt hwf (hover ew hew)).2.2⟩)]
-  rw [foldl_put_get (fun e : Nat × Nat => norm e) (fun _ => rw) remote sq1 ?hr]
+  rw [foldl_matPut_get (fun e : Nat × Nat => norm e) (fun _ => rw) remote sq1 ?hr]
   case hr =>
     intro e he
     have := g.hasEdge_lt hwf (hrem e he)
     unfold norm; split <;> first | omega | (simp only []; omega)
-  rw [foldl_put_get (fun e : Nat × Nat => e) (fun _ => dw) g.edges (replicate_square g.n)
+  rw [foldl_matPut_get (fun e : Nat × Nat => e) (fun _ => dw) g.edges (fw_replicate_square g.n)
     (fun e he => by have := hwf e he; omega)]
-  simp only [matches2_norm, find?_reverse_const, replicate_get, G.hasEdge_iff_any g hwf]
+  simp only [pairMatches_norm, fw_find?_reverse_const, fw_replicate_get, G.hasEdge_iff_any g hwf]
   split <;> rename_i h <;> simp only [h] <;> rfl
 
-/-- the weight matrix the constructor builds (default case: no remote edges, no overrides) -/
+/-- the weight matrix the constructor builds (default case: no remote edges, no overrides).
+(`hi`, `hj` are not needed: out of range both sides are `none` for a well-formed graph.) -/
 theorem weightMat_default_get (g : G) (hwf : g.WF) (dw rw : Nat) (i j : Nat) (hi : i < g.n) (hj : j < g.n) :
     (g.weightMat dw rw [] []).get i j = if g.hasEdge i j then some dw else none := by
   have _ := hi; have _ := hj
   rw [weightMat_get g hwf dw rw [] [] (by simp) (by simp)]
   simp
+
+
+/-! ### hop distances of the default matrix -/
+/-- `i → v₁ → … → j` is a (non-empty) walk along edges of `g` -/
+def IsWalk (g : G) : Nat → List Nat → Nat → Prop
+  | i, [], j => g.hasEdge i j = true
+  | i, v :: vs, j => g.hasEdge i v = true ∧ IsWalk g v vs j
+
+theorem walkWeight_default (g : G) (hwf : g.WF) (dw rw : Nat) (i : Nat) (mids : List Nat) (j : Nat) (w : Nat) :
+    walkWeight (g.weightMat dw rw [] []) i mids j = some w ↔
+      IsWalk g i mids j ∧ w = dw * (mids.length + 1) := by
+  induction mids generalizing i w with
+  | nil =>
+    simp only [walkWeight, IsWalk, weightMat_get g hwf dw rw [] [] (by simp) (by simp)]
+    by_cases h : g.hasEdge i j = true <;> simp [h, eq_comm]
+  | cons v vs ih =>
+    simp only [walkWeight, IsWalk, weightMat_get g hwf dw rw [] [] (by simp) (by simp)]
+    constructor
+    · intro h
+      obtain ⟨x, y, hx, hy, rfl⟩ := wadd_eq_some h
+      obtain ⟨h1, h2⟩ := (ih v y).mp hy
+      by_cases he : g.hasEdge i v = true
+      · simp [he] at hx
+        refine ⟨⟨he, h1⟩, ?_⟩
+        subst hx; subst h2
+        simp [Nat.mul_add]; omega
+      · simp [he] at hx
+    · rintro ⟨⟨he, h1⟩, rfl⟩
+      have := (ih v _).mpr ⟨h1, rfl⟩
+      rw [this]
+      simp [he, wadd, Nat.mul_add]; omega
+
+theorem IsWalk.append {g : G} {a : Nat} {xs : List Nat} {k : Nat} {ys : List Nat} {b : Nat}
+    (h1 : IsWalk g a xs k) (h2 : IsWalk g k ys b) : IsWalk g a (xs ++ k :: ys) b := by
+  induction xs generalizing a with
+  | nil => exact ⟨h1, h2⟩
+  | cons x xs ih => exact ⟨h1.1, ih h1.2⟩
+
+theorem IsWalk.reach {g : G} {i : Nat} {mids : List Nat} {j : Nat} (h : IsWalk g i mids j) : Reach g i j := by
+  induction mids generalizing i with
+  | nil => exact Reach.single h
+  | cons v vs ih => exact Reach.head h.1 (ih h.2)
+
+theorem Reach.isWalk {g : G} {i j : Nat} (h : Reach g i j) : i = j ∨ ∃ mids, IsWalk g i mids j := by
+  induction h with
+  | refl => exact Or.inl rfl
+  | @step b c _ he ih =>
+    right
+    rcases ih with rfl | ⟨mids, hm⟩
+    · exact ⟨[], he⟩
+    · exact ⟨mids ++ [b], IsWalk.append hm he⟩
+
+/-- entries of Floyd–Warshall on the default matrix: `dw` times the least number of hops of a non-empty
+walk (`none` iff there is no walk). -/
+theorem floydWarshall_default (g : G) (hwf : g.WF) (dw rw : Nat) (i j : Nat) (hi : i < g.n) (hj : j < g.n) :
+    (∀ w, (floydWarshall g.n (g.weightMat dw rw [] [])).get i j = some w ↔
+      (∃ mids, IsWalk g i mids j ∧ w = dw * (mids.length + 1)) ∧
+        ∀ mids, IsWalk g i mids j → w ≤ dw * (mids.length + 1)) ∧
+    ((floydWarshall g.n (g.weightMat dw rw [] [])).get i j = none ↔ ∀ mids, ¬ IsWalk g i mids j) := by
+  obtain ⟨h1, h2⟩ := floydWarshall_spec g.n _ (weightMat_square g dw rw [] []) i j hi hj
+  constructor
+  · intro w
+    rw [h1 w]
+    constructor
+    · rintro ⟨⟨mids, hm⟩, hmin⟩
+      refine ⟨⟨mids, (walkWeight_default g hwf dw rw i mids j w).mp hm⟩, ?_⟩
+      intro mids' hw'
+      have := hmin mids'
+      rw [(walkWeight_default g hwf dw rw i mids' j _).mpr ⟨hw', rfl⟩] at this
+      exact wle_some_some.mp this
+    · rintro ⟨⟨mids, hm⟩, hmin⟩
+      refine ⟨⟨mids, (walkWeight_default g hwf dw rw i mids j w).mpr hm⟩, ?_⟩
+      intro mids'
+      cases hc : walkWeight (g.weightMat dw rw [] []) i mids' j with
+      | none => exact wle_none _
+      | some c =>
+        obtain ⟨hw', rfl⟩ := (walkWeight_default g hwf dw rw i mids' j c).mp hc
+        exact wle_some_some.mpr (hmin mids' hw')
+  · rw [h2]
+    constructor
+    · intro h mids hw
+      have := (walkWeight_default g hwf dw rw i mids j _).mpr ⟨hw, rfl⟩
+      rw [h mids] at this
+      exact absurd this (by simp)
+    · intro h mids
+      cases hc : walkWeight (g.weightMat dw rw [] []) i mids j with
+      | none => rfl
+      | some c => exact absurd ((walkWeight_default g hwf dw rw i mids j c).mp hc).1 (h mids)
+
+/-- default weights: for `i ≠ j` the entry is `∞` iff `j` is not reachable from `i`. -/
+theorem floydWarshall_none_iff_not_reach (g : G) (hwf : g.WF) (dw rw : Nat) (i j : Nat) (hi : i < g.n) (hj : j < g.n)
+    (hij : i ≠ j) :
+    (floydWarshall g.n (g.weightMat dw rw [] [])).get i j = none ↔ ¬ Reach g i j := by
+  rw [(floydWarshall_default g hwf dw rw i j hi hj).2]
+  constructor
+  · intro h hr
+    rcases hr.isWalk with e | ⟨mids, hm⟩
+    · exact hij e
+    · exact h mids hm
+  · intro h mids hm
+    exact h hm.reach
+
+
+/-! ### non-vacuity / sanity examples -/
+section Examples
+/-- path 0 -1- 1 -2- 2 with weights 1 and 2 -/
+private def exM : Mat := [[none, some 1, none], [some 1, none, some 2], [none, some 2, none]]
+private def exG : G := ⟨4, [(0, 1), (1, 2)]⟩
+
+private theorem exM_sq : exM.Square 3 := by unfold Mat.Square; decide
+private theorem exG_wf : exG.WF := by unfold G.WF; decide
+example : floydWarshall 3 exM = [[some 2, some 1, some 3], [some 1, some 2, some 2], [some 3, some 2, some 4]] := by
+  decide
+-- floydWarshall_square / _sound / _le / _spec: hypotheses are satisfiable
+example : (floydWarshall 3 exM).Square 3 := floydWarshall_square 3 exM exM_sq
+example : ∃ mids, (∀ v ∈ mids, v < 3) ∧ walkWeight exM 0 mids 2 = some 3 :=
+  floydWarshall_sound 3 exM exM_sq 0 2 (by decide) (by decide) 3 (by decide)
+example : walkWeight exM 0 [1] 2 = some 3 := by decide
+example : wle ((floydWarshall 3 exM).get 0 2) (walkWeight exM 0 [1, 0, 1] 2) :=
+  floydWarshall_le 3 exM exM_sq 0 2 (by decide) (by decide) [1, 0, 1]
+example : walkWeight exM 0 [1, 0, 1] 2 = some 5 := by decide
+example : (floydWarshall 3 exM).get 0 2 = some 3 ↔
+    (∃ mids, walkWeight exM 0 mids 2 = some 3) ∧ ∀ mids, wle (some 3) (walkWeight exM 0 mids 2) :=
+  (floydWarshall_spec 3 exM exM_sq 0 2 (by decide) (by decide)).1 3
+-- the diagonal is the lightest non-empty closed walk, not 0
+example : (floydWarshall 3 exM).get 0 0 = some 2 := by decide
+-- weightMat
+example : exG.weightMat 1 100 [] [] =
+    [[none, some 1, none, none], [some 1, none, some 1, none], [none, some 1, none, none],
+     [none, none, none, none]] := by decide
+example : (exG.weightMat 1 100 [] []).get 2 1 = if exG.hasEdge 2 1 then some 1 else none :=
+  weightMat_default_get exG exG_wf 1 100 2 1 (by decide) (by decide)
+example : (exG.weightMat 1 100 [(1, 0)] [((2, 1), 7)]).Square 4 := weightMat_square exG 1 100 _ _
+example : (∀ e ∈ [((1 : Nat), (0 : Nat))], exG.hasEdge e.1 e.2 = true) ∧
+    (∀ ew ∈ [(((2 : Nat), (1 : Nat)), (7 : Nat))], exG.hasEdge ew.1.1 ew.1.2 = true) := by decide
+example : exG.weightMat 1 100 [(1, 0)] [((2, 1), 7)] =
+    [[none, some 100, none, none], [some 100, none, some 7, none], [none, some 7, none, none],
+     [none, none, none, none]] := by decide
+example : (exG.weightMat 1 100 [(1, 0)] [((2, 1), 7)]).get 1 2 = some 7 := by
+  rw [weightMat_get exG exG_wf 1 100 [(1, 0)] [((2, 1), 7)] (by decide) (by decide)]; decide
+-- floydWarshall_default / floydWarshall_none_iff_not_reach (vertex 3 is isolated)
+set_option maxRecDepth 8000 in
+example : (floydWarshall exG.n (exG.weightMat 1 100 [] [])).get 0 2 = some 2 := by decide
+set_option maxRecDepth 8000 in
+example : (floydWarshall exG.n (exG.weightMat 1 100 [] [])).get 0 3 = none := by decide
+set_option maxRecDepth 8000 in
+example : ¬ Reach exG 0 3 :=
+  (floydWarshall_none_iff_not_reach exG exG_wf 1 100 0 3 (by decide) (by decide) (by decide)).mp (by decide)
+example : (floydWarshall exG.n (exG.weightMat 1 100 [] [])).get 0 2 = some 2 ↔
+    (∃ mids, IsWalk exG 0 mids 2 ∧ 2 = 1 * (mids.length + 1)) ∧
+      ∀ mids, IsWalk exG 0 mids 2 → 2 ≤ 1 * (mids.length + 1) :=
+  (floydWarshall_default exG exG_wf 1 100 0 2 (by decide) (by decide)).1 2
+end Examples
 
 end BqVerif.Graph
